@@ -71,8 +71,14 @@ pub(crate) fn check_procfs_oflags(oflags: OpenFlags) -> Result<(), Error> {
     // These flags don't make sense for procfs and will just result in
     // confusing errors during lookup. O_TMPFILE contains multiple flags
     // (including O_DIRECTORY!) so we have to check it separately.
+    //
+    // Look at the bit that distinguishes O_TMPFILE rather than at the whole
+    // flag: our callers add O_DIRECTORY for a trailing slash, which would
+    // otherwise turn a bare __O_TMPFILE into a working O_TMPFILE behind our
+    // back (and the two resolvers disagree on how to reject the bare bit).
     let invalid_flags = OpenFlags::O_CREAT | OpenFlags::O_EXCL;
-    if !oflags.intersection(invalid_flags).is_empty() || oflags.contains(OpenFlags::O_TMPFILE) {
+    let tmpfile_bit = OpenFlags::O_TMPFILE.difference(OpenFlags::O_DIRECTORY);
+    if !oflags.intersection(invalid_flags).is_empty() || !oflags.intersection(tmpfile_bit).is_empty() {
         Err(ErrorImpl::InvalidArgument {
             name: "flags".into(),
             description: format!(
